@@ -5,6 +5,21 @@ HERE = os.path.dirname(os.path.abspath(__file__))
 BASE = "cd /repo && /venv/bin/python -m pytest -ra -q -p no:cacheprovider --timeout=900 --continue-on-collection-errors"
 
 CHECKS = {
+ "C01": dict(level="model_checking", engine="H",
+   technique="explicit-state BFS over process-lifetime event histories, every transition executed on the real code in a simulated kernel; syscall log as oracle",
+   text="All histories (to the stated depth) over kernel events spawn/exit(zombie)/reap/die on 1-2 recyclable pids and user events new/is_running/name/ppid/process_iter/10 signal+setter actions on up to 2 held objects; after every event the simulated kernel's log of delivered kill/setpriority/ioprio_set/sched_setaffinity/prlimit calls is checked: nothing with pid<=0, exact pid and value, delivered only to the incarnation the object was created for, NoSuchProcess and no delivery when the pid belongs to another incarnation. Plus an exhaustive list of non-positive/out-of-range pids.",
+   note="Kernel events happen between API calls (the identity-check/kill TOCTOU inside one call is inherent to POSIX pids); a recycled pid's new owner starts at a later jiffy; canonical state = relabelled incarnations + every mutable field of held objects, _pmap, _pids_reused.",
+   ref="DESIGN.md §4 C01"),
+ "C02": dict(level="model_checking", engine="H",
+   technique="explicit-state BFS over histories incl. wall-clock steps, real code in a simulated kernel; reference identity (pid, incarnation)",
+   text="All histories over spawn/die(/exit/reap)/tick100/clock step +-1 s and new/is_running/process_iter/boot_time()/create_time() with up to 2-3 held objects; after every event ==, != and hash() of every pair of held objects are compared with the reference identity, hash stability is checked, and every is_running() answer is compared with whether the object's incarnation is still in the table.",
+   note="Numeric canonical state (start jiffies, published btime, cached BOOT_TIME, every identity tuple); clock steps of +-1 s at 100 ticks/s make the adversarial alignment reachable.",
+   ref="DESIGN.md §4 C02"),
+ "C04": dict(level="model_checking", engine="H",
+   technique="explicit-state BFS over process-table histories with partially consumed generators; real code in a simulated kernel; reference cache model",
+   text="All histories over spawn/zombie/reap/die on 2-3 pids, thread creation, full process_iter(attrs) iterations, up to 1-2 partially consumed generators with kernel events between next() calls, cache_clear() and is_running() on yielded objects; pids() and pid_exists(n) (n in {-1,0,each pid,a thread id,absent,2^31-1,2^31,2^64}) are evaluated in every reached state; iterations are checked for order, coverage, info keys and object identity against a reference cache.",
+   note="Object identity across iterations is required only between complete iterations not overlapping a live generator; a cached entry whose pid was recycled without notice may be yielded stale (documented psutil behaviour).",
+   ref="DESIGN.md §4 C04"),
  "C03": dict(level="fault_enumeration", engine="F",
    technique="exhaustive deviation-bounded fault enumeration (every OS access x {vanish, zombie, EACCES, EPERM}, all pairs) of the real code inside a simulated kernel",
    text="Every Process query operation (43 methods/forms, as_dict whole and per attribute, children/parent/parents, is_running, str, process_iter) is executed on the real psutil code inside the simulated kernel; the 0-deviation run fixes the list of OS accesses, then every single fault at every access and every pair of faults (first anywhere, second at any later access of the re-run) is executed and judged: only NoSuchProcess/ZombieProcess/AccessDenied with the right pid and explained by the injected fault, values equal to what the process really had, and NoSuchProcess from every later query once the process is gone.",
@@ -46,6 +61,8 @@ def main():
             "add_only": True,
         },
         "engines": [
+            {"name": "H", "path": "vf/explore/history.py", "serves_properties": ["C01", "C02", "C04", "C10", "C16"],
+             "kind_free_text": "explicit-state breadth-first search over event histories; every transition re-executes the real code (replay from the initial state), states canonicalised and de-duplicated, parallel per level"},
             {"name": "F", "path": "vf/explore/deviate.py", "serves_properties": ["C03", "C14", "C15", "C19", "C20"],
              "kind_free_text": "deviation-bounded exhaustive fault enumeration over the OS accesses of the real code (stateless, replay-checked)"},
             {"name": "simk", "path": "vf/simk/", "serves_properties": [c for c in CHECKS],
